@@ -351,7 +351,23 @@ fn decode_line<T: Encode + Decode>(bytes: &[u8]) -> String {
         part(&b, src.1)
     })
     .unwrap_or_else(|_| "panic".to_string());
-    format!("{}|{}", a, b)
+    // skip entry point, and the memory a tracking input is told about
+    let c = std::panic::catch_unwind(|| {
+        let mut s = bytes;
+        match T::skip(&mut s) {
+            Ok(()) => format!("skip:ok:{}", bytes.len() - s.len()),
+            Err(_) => format!("skip:err@{}", bytes.len() - s.len()),
+        }
+    })
+    .unwrap_or_else(|_| "skip:panic".to_string());
+    let d = std::panic::catch_unwind(|| {
+        let mut s = bytes;
+        let mut m = parity_scale_codec::MemTrackingInput::new(&mut s, usize::MAX);
+        let ok = T::decode(&mut m).is_ok();
+        format!("mem:{}:{}", ok, m.used_mem())
+    })
+    .unwrap_or_else(|_| "mem:panic".to_string());
+    format!("{}|{}|{}|{}", a, b, c, d)
 }
 
 fn items_for<T: G + Encode + Decode>(seed: u64, tname: &str, n: u64, only: Option<u64>, dl: fn(&[u8]) -> String, out: &mut dyn FnMut(u64, String)) {
